@@ -52,6 +52,16 @@ namespace
             return obj->value()->config().name();
         }
     }
+    // offset inside the placement radius; no offset for a radius that gives no whole number to draw from
+    // (NaN, negative, below one half) or that does not fit an int
+    float random_offset(float radius)
+    {
+        if (!(radius * 2 >= 1) || radius * 2 >= 2147483648.0f)
+        {
+            return 0;
+        }
+        return (std::rand() % static_cast<int>(radius * 2)) - radius;
+    }
     value createvehicle_array(runtime& runtime, value::cref right)
     {
         auto arr = right.data<d_array>();
@@ -91,8 +101,8 @@ namespace
         }
         auto veh = object::create(runtime, conf, true);
         veh->position({
-            position->at(0).data<d_scalar, float>() + ((std::rand() % static_cast<int>(radius * 2)) - radius),
-            position->at(1).data<d_scalar, float>() + ((std::rand() % static_cast<int>(radius * 2)) - radius),
+            position->at(0).data<d_scalar, float>() + random_offset(radius),
+            position->at(1).data<d_scalar, float>() + random_offset(radius),
             position->at(2).data<d_scalar, float>()
             });
         return std::make_shared<d_object>(veh);
@@ -298,8 +308,8 @@ namespace
         }
         auto veh = object::create(runtime, conf, false);
         veh->position({
-            position->at(0).data<d_scalar, float>() + ((std::rand() % static_cast<int>(radius * 2)) - radius),
-            position->at(1).data<d_scalar, float>() + ((std::rand() % static_cast<int>(radius * 2)) - radius),
+            position->at(0).data<d_scalar, float>() + random_offset(radius),
+            position->at(1).data<d_scalar, float>() + random_offset(radius),
             position->at(2).data<d_scalar, float>()
             });
         return std::make_shared<d_object>(veh);
